@@ -107,7 +107,13 @@ fn pick_col<'a>(rng: &mut Rng, s: &'a Src, kinds: &str) -> Option<&'a (String, &
 fn gen_scalar(rng: &mut Rng, s: &Src, depth: u32) -> String {
     let num = pick_col(rng, s, "if").map(|c| c.0.clone()).unwrap_or("1".into());
     if depth == 0 { return num; }
-    match rng.below(22) {
+    match rng.below(23) {
+        // a predicate (IS NULL, IN, LIKE, BETWEEN) as the right-hand operand of a comparison or of an arithmetic operator: its rendering must
+        // keep it delimited, whatever the precedence of the two operators
+        22 => { let d = pick_col(rng, s, "if").map(|c| c.0.clone()).unwrap_or("1".into());
+                let pred = match rng.below(4) { 0 => format!("{d} IS NULL"), 1 => format!("{d} IN (1, 2, 5)"), 2 => format!("{d} IS NOT NULL"), _ => pick_col(rng, s, "t").map(|t| format!("{} LIKE 'x%'", t.0)).unwrap_or(format!("{d} IN (0, 3)")) };
+                let op = *rng.pick(&["=", "<>", "=", "<"]);
+                format!("CASE WHEN ({num} > {}) {op} ({pred}) THEN 1 ELSE 0 END", rng.range(0, 6)) }
         // float constants that need all 17 significant digits, of large and of tiny magnitude: a renderer may not move them by an ulp
         20 => { let k = *rng.pick(&["12345678901.234568", "98765432109.87654", "1.2345678901234567e-11", "123456789012345.67"]); format!("{num} + {k}") }
         21 => { let k = *rng.pick(&["12345678901.234568", "1.2345678901234567e-11", "7.0000000000000007e-12"]); format!("CASE WHEN {num} * 0 + {k} = {k} THEN 1 ELSE 0 END") }
@@ -132,7 +138,7 @@ fn gen_scalar(rng: &mut Rng, s: &Src, depth: u32) -> String {
         2 => format!("abs({num})"),
         3 => format!("CASE WHEN {num} > 2 THEN {num} ELSE 0 END"),
         4 => format!("{} - {}", gen_scalar(rng, s, depth - 1), pick_col(rng, s, "if").map(|c| c.0.clone()).unwrap_or("1".into())),
-        5 => format!("greatest({num}, {})", rng.range(0, 4)),
+        5 => if rng.chance(1, 3) { let o = pick_col(rng, s, "if").map(|c| c.0.clone()).unwrap_or("1".into()); format!("{}({num}, {o}, {})", *rng.pick(&["greatest", "least"]), rng.range(0, 4)) } else { format!("greatest({num}, {})", rng.range(0, 4)) },
         6 => format!("coalesce({num}, 0)"),
         7 => pick_col(rng, s, "t").map(|c| match rng.below(5) { 0 => format!("concat({}, 'x')", c.0), 1 => format!("concat({}, '-', upper({}))", c.0, c.0), 2 => format!("concat({})", c.0), 3 => format!("concat('a', {}, 'b', 'c')", c.0), _ => format!("upper({})", c.0) }).unwrap_or(num),
         _ => num,
@@ -141,7 +147,9 @@ fn gen_scalar(rng: &mut Rng, s: &Src, depth: u32) -> String {
 
 fn gen_where(rng: &mut Rng, s: &Src) -> String {
     let c = pick_col(rng, s, "if").map(|c| c.0.clone()).unwrap_or("1".into());
-    match rng.below(14) {
+    match rng.below(15) {
+        14 => { let d = pick_col(rng, s, "if").map(|c| c.0.clone()).unwrap_or("1".into()); let pred = match rng.below(3) { 0 => format!("{d} IS NULL"), 1 => format!("{d} IN (1, 2, 5)"), _ => format!("{d} IS NOT NULL") };
+                format!("({c} > {}) {} ({pred})", rng.range(0, 5), *rng.pick(&["=", "<>"])) }
         // negation of a conjunction / disjunction / range (precedence of the rendered NOT)
         11 => { let d = pick_col(rng, s, "if").map(|c| c.0.clone()).unwrap_or("1".into()); format!("NOT ({c} > {} AND {d} < {})", rng.range(0, 4), rng.range(3, 8)) }
         12 => { let d = pick_col(rng, s, "if").map(|c| c.0.clone()).unwrap_or("1".into()); format!("NOT ({c} < {} OR {d} >= {})", rng.range(1, 4), rng.range(2, 6)) }
@@ -279,7 +287,7 @@ fn cell_value(c: &Cell, t: &DataType) -> Value {
 
 fn rows_key(rows: &[Vec<Cell>]) -> Vec<String> { rows.iter().map(|r| r.iter().map(|c| match c { Cell::Real(f) => format!("{:.6}", f), Cell::Int(i) => format!("{:.6}", *i as f64), other => other.key() }).collect::<Vec<_>>().join("|")).collect() }
 
-fn query_class(sql: &str) -> String {
+pub fn query_class(sql: &str) -> String {
     let mut v = vec![];
     for (kw, name) in [("FULL JOIN", "full-join"), ("RIGHT JOIN", "right-join"), ("LEFT JOIN", "left-join"), ("NATURAL", "natural"), ("USING", "using"), ("UNION ALL", "union-all"), ("UNION", "union"), ("INTERSECT", "intersect"), ("EXCEPT", "except"),
                        ("GROUP BY", "group"), ("HAVING", "having"), ("DISTINCT", "distinct"), ("LIMIT", "limit"), ("WITH ", "cte")] {
@@ -289,7 +297,7 @@ fn query_class(sql: &str) -> String {
 }
 
 /// a Map anywhere in the relation orders by a column its input does not have (the query ordered by something it did not select)
-fn orders_by_missing_column(rel: &Relation) -> bool {
+pub fn orders_by_missing_column(rel: &Relation) -> bool {
     match rel {
         Relation::Map(m) => m.order_by().iter().any(|o| o.expr.columns().iter().any(|c| m.input().schema().field_from_identifier(*c).is_err())) || orders_by_missing_column(m.input()),
         Relation::Reduce(r) => orders_by_missing_column(r.input()),
@@ -300,7 +308,7 @@ fn orders_by_missing_column(rel: &Relation) -> bool {
 }
 
 /// two select items without alias (or one of them and the HAVING clause) are the same expression: they get the same content-derived name
-fn duplicate_unnamed_items(sql: &str) -> bool {
+pub fn duplicate_unnamed_items(sql: &str) -> bool {
     use qrlew::ast;
     let Ok(q) = parse(sql) else { return false };
     let ast::SetExpr::Select(sel) = q.body.as_ref() else { return false };
